@@ -24,6 +24,8 @@ from harness import translate_py_esc as tresc
 MANIFEST = dict(
     category="proof",
     technique="Lean 4 theorems over a hand-written model (fuelled while/for/else/pop loop, with a fuel-adequacy theorem) "
+              "+ Python-subset-to-Lean translator of split_with_escape (whole function) and of the escaping loop of serialize_dict, "
+              "regenerated from the source on every run, with machine-checked equality to the model "
               "+ differential correspondence with the implementation + the statement executed on the implementation",
     text="Lean theorems, unbounded in text length, number of items and item contents, for the code with fix patches "
          "C17-a..j applied: C17_total (split_with_escape returns for every text, every non-empty delimiter, every maxsplit, "
